@@ -243,3 +243,112 @@ def build(c, obj, **kw):
 def is_construct_error(e):
     from construct import core
     return isinstance(e, core.ConstructError)
+
+
+# ---- two-feature interactions: every wrapper class over every kind of inner construct (fixed, framed, padded, terminated,
+# read-to-end, variable, context-dependent, zero-size), with a value of the domain; used by several suites ----
+
+# (template, how the wrapped value is made from the inner value v)
+PAIR_WRAPPERS = [
+    ('Const({V}, {X})', lambda v: None),
+    ('Padded(9, {X})', lambda v: v), ('Padded(9, {X}, pattern=b"\\xee")', lambda v: v),
+    ('Aligned(4, {X})', lambda v: v), ('Aligned(3, {X}, pattern=b"\\xff")', lambda v: v),
+    ('FixedSized(9, {X})', lambda v: v),
+    ('Prefixed(Byte, {X})', lambda v: v), ('Prefixed(Int16ul, {X}, includelength=True)', lambda v: v), ('Prefixed(VarInt, {X})', lambda v: v),
+    ('NullTerminated({X})', lambda v: v), ('NullTerminated({X}, term=b"\\xfe\\xfe", include=False)', lambda v: v),
+    ('NullStripped({X})', lambda v: v),
+    ('Array(2, {X})', lambda v: [v, v]), ('Array(0, {X})', lambda v: []),
+    ('PrefixedArray(Byte, {X})', lambda v: [v, v]),
+    ('Optional({X})', lambda v: v), ('Select({X}, Pass)', lambda v: v), ('Select(Const(b"\\x99"), {X})', lambda v: v),
+    ('Default({X}, {V})', lambda v: None), ('Rebuild({X}, {V})', lambda v: None),
+    ('Hex({X})', lambda v: v), ('HexDump({X})', lambda v: v),
+    ('RawCopy({X})', lambda v: dict(value=v)),
+    ('ByteSwapped({X})', lambda v: v), ('BitsSwapped({X})', lambda v: v), ('Bitwise(Bytewise({X}))', lambda v: v),
+    ('ProcessXor(3, {X})', lambda v: v), ('ProcessXor(b"\\x01\\x02\\x03", {X})', lambda v: v), ('ProcessRotateLeft(4, 1, {X})', lambda v: v),
+    ('Transformed({X}, swapbytes, 2, swapbytes, 2)', lambda v: v), ('Transformed({X}, swapbytes, 2, swapbytes, None)', lambda v: v),
+    ('Transformed({X}, swapbytes, None, swapbytes, None)', lambda v: v),
+    ('Restreamed({X}, swapbytes, 2, swapbytes, 2, lambda n: n)', lambda v: v),
+    ('Lazy({X})', lambda v: v), ('Peek({X})', lambda v: None), ('Pointer(0, {X})', lambda v: v),
+    ('IfThenElse(True, {X}, Pass)', lambda v: v), ('IfThenElse(False, Pass, {X})', lambda v: v), ('If(True, {X})', lambda v: v),
+    ('Switch(1, {{1: {X}}})', lambda v: v), ('Switch(2, {{1: Pass}}, default={X})', lambda v: v),
+    ('Struct("a"/{X})', lambda v: dict(a=v)), ('Struct("a"/{X}, "t"/Byte)', lambda v: dict(a=v, t=7)),
+    ('Sequence({X}, Byte)', lambda v: [v, 7]), ('FocusedSeq("a", "a"/{X}, Const(b"."))', lambda v: v),
+    ('Union(0, "a"/{X}, "b"/Byte)', lambda v: dict(a=v)), ('Union(None, "a"/{X})', lambda v: dict(a=v)),
+    ('LazyStruct("a"/{X}, "t"/Byte)', lambda v: dict(a=v, t=7)), ('LazyArray(2, {X})', lambda v: [v, v]),
+    ('GreedyRange({X})', lambda v: [v]), ('RepeatUntil(True, {X})', lambda v: [v]),
+    ('OffsettedEnd(-1, {X})', lambda v: v),
+    ('Mapping({X}, {{"k": {V}}})', lambda v: 'k'),
+    ('OneOf({X}, [{V}])', lambda v: v), ('NoneOf({X}, [{V}])', lambda v: v),
+    ('ExprValidator({X}, obj_ == {V})', lambda v: v), ('ExprAdapter({X}, obj_, obj_)', lambda v: v),
+]
+
+PAIR_INNERS = [
+    ('Byte', 7), ('Int16ub', 513), ('Int24sl', -2), ('Bytes(2)', b'ab'), ('Pass', None), ('Flag', True), ('VarInt', 300),
+    ('Padded(4, Bytes(2))', b'ab'), ('Aligned(4, Bytes(3), pattern=b"\\xff")', b'abc'), ('FixedSized(3, GreedyBytes)', b'abc'),
+    ('Prefixed(Byte, GreedyBytes)', b'ab'), ('NullTerminated(GreedyBytes)', b'ab'), ('GreedyBytes', b'ab'),
+    ('CString("utf8")', 'ab'), ('PascalString(Byte, "utf8")', 'ab'), ('PaddedString(4, "ascii")', 'ab'),
+    ('Struct("x"/Byte, "y"/Bytes(this.x))', dict(x=1, y=b'z')), ('Array(2, Byte)', [1, 2]), ('GreedyRange(Byte)', [1, 2]),
+    ('BitStruct("a"/Nibble, "b"/Nibble)', dict(a=1, b=2)), ('Enum(Byte, k=7)', 'k'), ('Const(b"MZ")', None), ('Bitwise(Bytes(8))', bytes([0, 1, 0, 0, 0, 0, 1, 1])),
+]
+
+
+# inner constructs that read to the end of their stream, and the wrappers that give them a stream of their own (or let them be
+# the last thing read): anywhere else a read-to-end construct swallows what the wrapper puts behind it, by design
+READ_TO_END = ('GreedyBytes', 'GreedyRange(Byte)')
+DELIMITING = ('Prefixed(', 'NullTerminated(', 'Const(', 'Optional(', 'Select(', 'Default(', 'Rebuild(', 'Hex(', 'HexDump(',
+              'RawCopy(', 'Lazy(', 'Peek(', 'Pointer(', 'IfThenElse(', 'If(', 'Switch(', 'Struct("a"/{X})', 'Union(', 'OneOf(', 'NoneOf(',
+              'ExprValidator(', 'ExprAdapter(', 'Mapping(', 'ProcessXor(', 'ProcessRotateLeft(', 'Transformed({X}, swapbytes, None', 'BitsSwapped(',
+              'Bitwise(Bytewise(', 'Checksum(', 'NullStripped(', 'OffsettedEnd(')
+
+
+def constructible(src):
+    """the expression evaluates to a construct (ByteSwapped / BitsSwapped of an unsizable subcon raise when the macro is called)"""
+    try:
+        get(src)
+        return True
+    except BaseException:
+        return False
+
+
+def pairs(selfdelimiting=False):
+    """selfdelimiting=True: leave out a read-to-end inner construct under a wrapper that puts something behind it"""
+    out = []
+    for wt, wv in PAIR_WRAPPERS:
+        for xs, xv in PAIR_INNERS:
+            if selfdelimiting and wt.startswith(('Pointer(', 'Union(', 'OffsettedEnd(')):
+                continue          # consume nothing / not what they built, by design
+            if selfdelimiting and xs in READ_TO_END and not any(wt.startswith(d) for d in DELIMITING):
+                continue
+            if selfdelimiting and wt.startswith('NullTerminated('):
+                try:            # the payload must not contain the terminator and must be a whole number of terminator-sized units
+                    _pl = get(xs).build(xv)
+                    if (b'\xfe\xfe' if 'term=' in wt else b'\x00') in _pl or ('term=' in wt and len(_pl) % 2):
+                        continue
+                except BaseException:
+                    pass
+            if selfdelimiting and wt.startswith('NullStripped('):
+                try:            # the payload must not end with the pad byte
+                    if get(xs).build(xv).endswith(b'\x00'):
+                        continue
+                except BaseException:
+                    pass
+            if selfdelimiting and (wt.startswith('Transformed({X}, swapbytes, 2') or wt.startswith('Restreamed({X}, swapbytes, 2')):
+                try:            # the payload must be the unit the transform is declared over
+                    _pl = get(xs).build(xv)
+                    if (len(_pl) != 2) if wt.startswith('Transformed') else (len(_pl) % 2 != 0):
+                        continue
+                except BaseException:
+                    pass
+            if '{V}' in wt and xv is None:
+                continue          # a wrapper that needs a value of the inner construct's domain
+            src = wt.replace('{X}', xs).replace('{V}', repr(xv)).replace('{{', '{').replace('}}', '}')
+            try:
+                obj = wv(xv)
+            except Exception:
+                continue
+            if src in ('GreedyRange(Pass)', 'GreedyRange(GreedyBytes)', 'GreedyRange(GreedyRange(Byte))'):
+                continue          # zero-width repetition: known finding K5, exercised by C06
+            if src == 'Hex(Flag)':
+                continue          # returns HexDisplayedInteger(1) for True (a bool is an int to isinstance): equal under ==, DESIGN 0.8
+            out.append((src, obj))
+    return out
